@@ -19,10 +19,15 @@ theorem k_willFit_eq (numInputBits : Nat) (v : VersionInfo) (ec : EC) :
       (match ecBlocksForLevel v ec with
        | .error e => .error e
        | .ok b => Gen.K13.willFit numInputBits v.total (totalECCodewords b)) := by
-  have e8 : (8 : Int) = ((8 : Nat) : Int) := rfl
-  have e7 : (numInputBits : Int) + 7 = ((numInputBits + 7 : Nat) : Int) := by simp
-  simp only [willFit, numDataBytes, Gen.K13.willFit, bind, Except.bind, pure, Except.pure, e7, e8, tdiv_natCast]
-  cases ecBlocksForLevel v ec <;> rfl
+  simp only [willFit, numDataBytes, Gen.K13.willFit, bind, Except.bind, pure, Except.pure]
+  cases ecBlocksForLevel v ec with
+  | error e => rfl
+  | ok b =>
+    -- shape-robust: turn Go's truncated division of a non-negative term into `/` and let omega compare
+    have key : ∀ a : Int, 0 ≤ a → Int.tdiv a 8 = a / 8 := fun a h => Int.tdiv_eq_ediv_of_nonneg h
+    simp only [Except.ok.injEq, decide_eq_decide]
+    rw [key _ (by omega)]
+    omega
 
 when_kernel Gzx.Gen.K13.getAlphanumericCode in
 /-- `getAlphanumericCode(c)` = the standard's Table 5 (`QRRef.alnumCode`), -1 for "not encodable", for every byte -/
